@@ -200,7 +200,8 @@ class String:
             else:
                 try:
                     if command is Var:
-                        r = command(args, self.varExtra(mo))
+                        r = command(args, self.varExtra(mo),
+                                    encoding=getattr(self, 'encoding', None))
                     else:
                         r = command(args)
                     if hasattr(r, 'simple_form'):
